@@ -320,6 +320,29 @@ def run(prog, rep, tier='quick', config='default'):
                     rep.ok('R11h', k, where=where, fn=g.name,
                            detail='CsvTx.commission_currency is Some exactly when the transaction has a separate commission currency '
                                   '(only the Option discriminant decides; the value passes through clone/map)')
+        # R11i: whether an exchange rate is written is decided by the currency, never by the rate's value
+        n_i = 0
+        hit = None
+        for g in grp2:
+            for c in g.calls:
+                if c.short not in ('eq', 'ne', 'cmp', 'partial_cmp', 'lt', 'le', 'gt', 'ge', 'is_zero', 'is_one', 'is_integer'):
+                    continue
+                for a in c.args:
+                    if is_place(a) and any(fl == 'exchange_rate' for (_, fl) in mir.provenance(g, a, follow_all_call_args=True).fields):
+                        hit = hit or (g, c)
+            n_i += len([1 for b in g.blocks.values() for st in b['stmts'] if any(fl.endswith('exchange_rate') for (_, fl) in mir.place_fields(st['dst'])[-1:])])
+            n_i += len([1 for b in g.blocks.values() if b['term'] and b['term']['t'] == 'call' and
+                        any(fl.endswith('exchange_rate') for (_, fl) in mir.place_fields(b['term']['dst'])[-1:])])
+        if hit:
+            g, c = hit
+            rep.violation('R11i', 'rate-written-whatever-its-value', where=c.where(), fn=g.name,
+                          detail='the conversion to the CSV form compares an exchange rate (%s): a foreign-currency row whose rate happens to equal the '
+                                 'tested value (USD at parity) is written without its rate and cannot be read back' % short(c.callee))
+        elif n_i >= 3:
+            rep.ok('R11i', 'rate-written-whatever-its-value', fn=to_csvtx.name,
+                   detail='%d stores to CsvTx exchange-rate fields; no comparison on an exchange rate anywhere under Tx::to_csvtx' % n_i)
+        else:
+            rep.violation('R11i', 'anchor-lost:rate-stores', fn=to_csvtx.name, detail='anchor lost: only %d stores to CsvTx exchange-rate fields found' % n_i)
         if n_h == 0:
             rep.violation('R11h', 'anchor-lost:commission-currency-export', fn=to_csvtx.name,
                           detail='anchor lost: no store to CsvTx.commission_currency fed by separate_commission_currency found under Tx::to_csvtx')
@@ -341,6 +364,55 @@ def run(prog, rep, tier='quick', config='default'):
                              'back does not reproduce the transaction' % (short(c.callee), g.name))
     else:
         rep.ok('R11g', 'writer-formats-losslessly', fn=writer.name, detail='no rounding / truncating / float operation is reachable from txs_to_csv_table (%d functions)' % len(grp))
+
+    # ------------------------------------------------------------------ R11j: the converters' CSV writer emits table cells unchanged
+    STR_XFORM = {'replace', 'replacen', 'trim', 'trim_start', 'trim_end', 'trim_matches', 'trim_start_matches', 'trim_end_matches',
+                 'to_lowercase', 'to_uppercase', 'to_ascii_lowercase', 'to_ascii_uppercase', 'truncate', 'split', 'splitn', 'rsplit',
+                 'split_whitespace', 'lines', 'strip_prefix', 'strip_suffix', 'escape_debug', 'escape_default', 'escape_unicode',
+                 'replace_range', 'chars', 'char_indices', 'bytes', 'split_at', 'split_off', 'make_ascii_lowercase', 'make_ascii_uppercase'}
+    cw = [f for f in prog.product_fns() if f.name.startswith('<app::outfmt::csv::') and f.name.endswith('::print_render_table')]
+    if config != 'wasm' or cw:
+        if rep.anchor('CSV implementation of AcbWriter::print_render_table', cw):
+            f0 = cw[0]
+            work = []
+            seeds0 = set()
+            for b in f0.blocks.values():
+                for st in b['stmts']:
+                    if any(of.endswith('render::RenderTable') and fl in ('header', 'rows', 'footer') for pl in f0.stmt_sources(st) for (of, fl) in mir.place_fields(pl)):
+                        seeds0.add(st['dst']['l'])
+            work.append((f0, frozenset(seeds0)))
+            seen = set()
+            hit = None
+            n_fn = 0
+            while work and n_fn < 40:
+                g, seeds = work.pop()
+                if (g.name, seeds) in seen or not seeds:
+                    continue
+                seen.add((g.name, seeds))
+                n_fn += 1
+                t = mir.forward_taint(g, set(seeds))
+                for c in g.calls:
+                    als = c.arg_locals()
+                    if not any(a in t for a in als):
+                        continue
+                    if c.short in STR_XFORM and re.search(r'str|string::String', c.callee) and als and als[0] in t:
+                        hit = hit or (g, c)
+                    h = prog.resolve(c.callee, g.crate)
+                    if h is not None and h.name.startswith('app::outfmt::'):
+                        work.append((h, frozenset(i + 1 for i, a in enumerate(als) if a in t)))
+                for h in prog.closures_of(g):
+                    # a closure created here and handed to an adaptor over tainted data: its item parameters are tainted
+                    work.append((h, frozenset(range(2, h.argc + 1))))
+            if not seeds0:
+                rep.violation('R11j', 'anchor-lost:table-cells', fn=f0.name, detail='anchor lost: the CSV writer does not read RenderTable.header/rows/footer')
+            elif hit:
+                g, c = hit
+                rep.violation('R11j', 'cells-written-unchanged', where=c.where(), fn=g.name,
+                              detail='a table cell passes through str::%s on its way to the CSV record: what the converters write (a memo with a '
+                                     'line break, padding, case) is no longer what is read back' % c.short)
+            else:
+                rep.ok('R11j', 'cells-written-unchanged', fn=f0.name,
+                       detail='header, rows and footer reach write_record without any string-transforming call (%d functions/closures followed)' % n_fn)
 
     # ------------------------------------------------------------------ R11f
     n = 0
